@@ -83,15 +83,15 @@ Proof.
   intros P. induction l as [|x r IH]; intros H; simpl; [constructor|].
   inversion H; subst. apply ins_sub_forall; auto.
 Qed.
-Lemma reload_gslb_clean : forall g l, Forall sub_clean l ->
-  exists nl rel e, reload_gslb g l = Some (nl, rel, e) /\ Forall sub_clean nl /\ Forall once rel.
+Lemma reload_gslb_clean : forall g l m, Forall sub_clean l ->
+  exists nl rel e m', reload_gslb g l m = Some (nl, rel, e, m') /\ Forall sub_clean nl /\ Forall once rel.
 Proof.
-  intros g l H. unfold reload_gslb. pose proof (reload_old_clean g l H) as Hc.
+  intros g l mt H. unfold reload_gslb. pose proof (reload_old_clean g l H) as Hc.
   destruct (reload_old g l) as [[k m] gone]. destruct Hc as [Ck [Cm Cg]].
   destruct (pos_total _ =? 0).
-  - eexists. eexists. eexists. split; [reflexivity|]. split; [exact Cm|constructor].
+  - eexists. eexists. eexists. eexists. split; [reflexivity|]. split; [exact Cm|constructor].
   - destruct (release_subs_clean gone Cg) as [rel [E O]]. rewrite E.
-    eexists. eexists. eexists. split; [reflexivity|]. split; [|exact O].
+    eexists. eexists. eexists. eexists. split; [reflexivity|]. split; [|exact O].
     apply sort_subs_forall. apply Forall_app. split; [exact Ck|].
     apply Forall_forall. intros s Hin. apply in_flat_map in Hin. destruct Hin as [e [_ Hs]].
     destruct (memZ (fst e) (map sname l)); [destruct Hs|]. destruct Hs as [<-|[]]. constructor.
@@ -126,7 +126,8 @@ Lemma phase1_clean : forall gs old, Forall clu_clean old ->
 Proof.
   induction gs as [|[n g] r IH]; intros old H; simpl.
   - exists [], [], false. split; [reflexivity|]. split; constructor.
-  - destruct (reload_gslb_clean g _ (cfind_clean n old H)) as [nl [rel [e [E [A B]]]]]. rewrite E.
+  - destruct (reload_gslb_clean g _ (match cfind n old with Some c => cmeta c | None => meta0 end) (cfind_clean n old H))
+      as [nl [rel [e [m' [E [A B]]]]]]. rewrite E.
     destruct (IH old H) as [cs [rel' [e' [E' [A' B']]]]]. rewrite E'.
     eexists. eexists. eexists. split; [reflexivity|]. split.
     + apply ins_clu_forall; [exact A|exact A'].
@@ -300,7 +301,7 @@ Proof. vm_compute. repeat split. Qed.
 Definition obs_core (v : val) : bool :=
   match v with
   | VZ 0 => true
-  | VL [_; d; VL [VZ n; VZ m]] => dump_ok d && (n =? m)
+  | VL [_; d; VL [VZ n; VZ m]; _] => dump_ok d && (n =? m)
   | _ => false
   end.
 Lemma ins_bk_forall : forall (P : bk -> Prop) b l, P b -> Forall P l -> Forall P (ins_bk b l).
@@ -331,6 +332,7 @@ Qed.
 Arguments dump_ok : simpl never.
 Arguments enc_tbl : simpl never.
 Arguments countb : simpl never.
+Arguments enc_sel : simpl never.
 Lemma run_core : forall ops t, tbl_inv t -> forallb obs_core (map fst (run_rops t ops)) = true.
 Proof.
   induction ops as [|o r IH]; intros t Hi; [reflexivity|].
@@ -418,10 +420,10 @@ Proof.
   intros x. induction l as [|a r IH]; simpl; [tauto|]. rewrite ins_sub_in, IH.
   split; [intros [H|H]; [left; symmetry; exact H|right; exact H]|intros [H|H]; [left; symmetry; exact H|right; exact H]].
 Qed.
-Theorem gslb_keeps : forall g l nl rel s w, reload_gslb g l = Some (nl, rel, false) ->
+Theorem gslb_keeps : forall g l m nl rel m' s w, reload_gslb g l m = Some (nl, rel, false, m') ->
   In s l -> gfind (sname s) g = Some w -> In (mkSub (sname s) w (sbks s)) nl.
 Proof.
-  intros g l nl rel s w H Hin Hg. unfold reload_gslb in H.
+  intros g l mt nl rel m' s w H Hin Hg. unfold reload_gslb in H.
   pose proof (reload_old_kept g l s w Hin Hg) as Hk.
   destruct (reload_old g l) as [[k m] gone]. simpl in Hk.
   destruct (pos_total _ =? 0); [discriminate|].
